@@ -159,7 +159,9 @@ def gen_extract(r, prop, client, risky_rate=0.04, force_small=False,
     form = r.weighted([(6, 'list'), (3, 'dict'), (1, 'series')])
     opts = gen_opts(r, prop)
     size = gen_size(r, force_small)
-    seed = r.randint(0, 2 ** 31) if r.chance(0.45) else None
+    seed = r.weighted([(6, r.randint(2, 2 ** 31)), (1, 0), (1, 1),
+                       (0.5, 2 ** 32 - 1), (0.5, 2 ** 63)]) \
+        if r.chance(0.45) else None
     op = {'op': 'extract', 'client': client, 'form': form,
           'examples': examples, 'opts': opts, 'size': size, 'seed': seed,
           'info': info}
@@ -203,7 +205,29 @@ def gen_plan(prop, r, tier, run):
             if r.chance(0.25):
                 ops.append({'op': 'perturb', 'client': r.pick(clients),
                             'n': r.randint(1, 5)})
-            op = gen_extract(r, prop, r.pick(clients))
+            op = gen_extract(r, prop, r.pick(clients), risky_rate=0.07)
+            prev = [o for o in ops if o['op'] == 'extract']
+            if prev and r.chance(0.5):
+                # another caller works on (part of) the same strings with
+                # other options: state shared between calls (memo, caches)
+                # only matters when the strings overlap
+                src = r.pick(prev)
+                ex = [s for s in src['examples']]
+                if src['form'] == 'dict':
+                    ex = [s for s, k in zip(src['examples'], src['freqs'])
+                          for _ in range(k)]
+                if r.chance(0.5):
+                    r.shuffle(ex)
+                if r.chance(0.3) and len(ex) > 2:
+                    ex = ex[:r.randint(2, len(ex))]
+                op['examples'] = ex
+                op['info'] = src.get('info', {})
+                if op['form'] == 'dict':
+                    op['form'] = 'list'
+                    op.pop('freqs', None)
+                if op['form'] == 'series':
+                    op['examples'] = [s.replace('\x00', '\x01')
+                                      if s is not None else s for s in ex]
             if prop == 'C13':
                 op['tagpair'] = True
                 op['opts'].pop('tag', None)
